@@ -9,4 +9,5 @@ mkdir -p .bin lean/InfluxQL/Gen
 (cd harness && cp /repo/go.sum . 2>/dev/null || true; go build -tags verif -o ../.bin/harness .)
 python3 tools/gen_registry.py
 (cd lean && lake build InfluxQL oracle)
+cp lean/.lake/build/bin/oracle .bin/oracle.lastgood
 echo setup-ok
